@@ -360,7 +360,7 @@ func (rn *runner) runErrorPhase(scratch string) {
 		_ = sigRole
 		files := w.BucketFiles()
 		sel := it.b.sel
-		mkCase := func() any { return Case{Phase: "errors", Selection: &sel, Files: files, Note: note} }
+		mkCase := func() any { return Case{Phase: "errors", Selection: &sel, Files: files, World: infoOf(w), Note: note} }
 		targets := refTargets(w, sel)
 		direct := directCompile(w.Texts(), targets)
 		r.Eval(1)
@@ -435,6 +435,7 @@ func (rn *runner) runErrorPhase(scratch string) {
 				return
 			}
 			cnt.add("error_cases_compile_error", 1)
+			r.SampleEvery(i, 211, mkCase)
 			r.Distinct("errors|" + note)
 			if len(want) > 1 {
 				cnt.add("error_cases_multiple_positions", 1)
